@@ -81,9 +81,11 @@ GEN_ALL.update({
     "noncentral_f": {"dfnum": 3.0, "dfden": 5.0, "nonc": 1.0}, "hypergeometric": {"ngood": 50, "nbad": 60, "nsample": 40},
     "logseries": {"p": 0.6}, "multinomial": {"n": 50, "pvals": [0.2, 0.3, 0.5]},
 })
+GEN_ONLY = {"multivariate_hypergeometric": {"colors": [10, 20, 30], "nsample": 12}}
 RS_ALL = dict(RS_DISTS)
 RS_ALL.update({k: v for k, v in GEN_ALL.items() if k not in ("random", "integers") and ":" not in k})
 RS_ALL.update({"random_integers": {"low": 0, "high": 1000}, "tomaxint": {}})
+GEN_ALL.update(GEN_ONLY)
 # methods whose single draw is (practically) never repeated: two successive draws of >= 6 values must differ
 RICH = {"random:f4", "integers:i4", "standard_normal:f4", "randint:i4", "random", "random_sample", "normal", "uniform", "standard_normal", "integers", "randint", "exponential", "gamma", "beta",
         "chisquare", "gumbel", "laplace", "logistic", "lognormal", "pareto", "power", "rayleigh", "standard_cauchy",
@@ -480,7 +482,13 @@ def case_hist(ctx, inp):
                             ctx.disagree("history: RandomState block state is not the window the model assigns", w, None)
                             break
     # ---- implementation-level consequences
-    solo = [np.asarray(a.compute(scheduler="sync")) for a in arrs]
+    solo = []
+    for i, a in enumerate(arrs):
+        try:
+            solo.append(np.asarray(a.compute(scheduler="sync")))
+        except Exception as e:   # noqa: BLE001 — every array of a valid history must be computable
+            ctx.fail(f"a random array cannot be computed: {type(e).__name__}: {str(e)[:160]}", observed=steps[i])
+            return
     for i in range(len(arrs)):
         for j in range(i + 1, len(arrs)):
             if names[i] == names[j]:
@@ -492,6 +500,18 @@ def case_hist(ctx, inp):
                 kj = set(k for k in arrs[j].__dask_graph__().keys() if isinstance(k, tuple) and k[0] == names[j])
                 if ki & kj:
                     ctx.fail("two calls on one object share output keys", observed=sorted(map(str, ki & kj))[:4])
+    for i, (a, s_) in enumerate(zip(arrs, solo)):
+        if tuple(a.shape) != s_.shape:
+            ctx.fail("the computed shape differs from the lazily declared shape", observed=[steps[i], list(s_.shape)], expected=list(a.shape))
+        if steps[i]["kind"] == "dist":
+            kw = dict((GEN_ALL if api == "gen" else RS_ALL)[steps[i]["dist"]])
+            m = kw.pop("_m", steps[i]["dist"])
+            ref = np.random.default_rng(0) if api == "gen" else np.random.RandomState(0)
+            with warnings.catch_warnings():
+                warnings.simplefilter("ignore")
+                rshape = np.asarray(getattr(ref, m)(size=tuple(steps[i]["size"]), **kw)).shape
+            if rshape != s_.shape:
+                ctx.fail("the computed shape differs from the shape NumPy's method returns for the same size", observed=[steps[i], list(s_.shape)], expected=list(rshape))
     joint = dask.compute(*arrs, scheduler=inp["sched"])
     for i, (j, s_) in enumerate(zip(joint, solo)):
         j = np.asarray(j)
@@ -519,6 +539,14 @@ def case_hist(ctx, inp):
         for i, (j, s_) in enumerate(zip(again, solo)):
             if not np.array_equal(np.asarray(j), s_):
                 ctx.fail(f"same seed and same history: array {i} has different values", observed=steps[i])
+        if api == "rs":
+            # RandomState.seed(s) on the used object restarts the stream: the history replays
+            rng.seed(seed)
+            arrs3 = [_hist_build(da, rng, api, op) for op in steps]
+            if [a.name for a in arrs3] != names:
+                ctx.fail("RandomState.seed(seed) on a used object does not replay the history (names differ)",
+                         observed=[names, [a.name for a in arrs3]])
+            ctx.branch("rs.seed() replay")
         ctx.branch("seeded")
     else:
         ctx.branch("unseeded")
